@@ -242,7 +242,8 @@ func ghostProbe(s *sm.Session, property string, names []string) *sm.Fail {
 		if s.M.Colls[n] != nil {
 			continue
 		}
-		for _, op := range []cs.Op{{Kind: "count", Q: &cs.Query{Coll: n}}, {Kind: "listindexes", Coll: n}} {
+		one := 1
+		for _, op := range []cs.Op{{Kind: "count", Q: &cs.Query{Coll: n}}, {Kind: "count", Q: &cs.Query{Coll: n, Skip: &one}}, {Kind: "listindexes", Coll: n}} {
 			out := run.Exec(s.H.DB, &op)
 			if out.Err != "ErrCollectionNotExist" {
 				return &sm.Fail{Property: property, Clause: "ghost-collection", Detail: fmt.Sprintf("%s on the missing collection %q returned err=%q n=%d instead of ErrCollectionNotExist", op.Kind, n, out.Err, out.N)}
